@@ -8,7 +8,7 @@ import AdaptixModel.Types.GenericWf
   hint      {"tv": n} | {"a": name, "bare": bool} | {"o": origin, "args": [hint…]}
   tvar      {"id": n, "bound": hint|null, "constraints": [hint…]}
   base      {"cls": i, "args": [hint…]|null}
-  class     {"params": [n…], "orig": [base…]|null, "bases": [i…], "mro": [i…], "ann": [[key, hint]…]}
+  class     {"params": [n…], "orig": [base…]|null, "bases": [base…], "mro": [i…], "ann": [[key, hint]…]}
   hierarchy {"kind": "dataclass"|"attrs"|"namedtuple"|"typeddict"|"pydantic", "tvars": [tvar…], "classes": [class…]}
 
   ops: resolve {h, target: base}  ->  {members, spec, wf, prec, ovis}
@@ -82,7 +82,7 @@ def decCls (j : Json) : Except String Cls := do
   return {
     params := ← (← fieldArr j "params").mapM asNat
     ownOrigBases := orig
-    bases := ← (← fieldArr j "bases").mapM asNat
+    bases := ← (← fieldArr j "bases").mapM decBase
     mro := ← (← fieldArr j "mro").mapM asNat
     ownAnn := ← decMembers (← field j "ann") }
 
